@@ -555,7 +555,7 @@ fn run_eq(tier: Tier, kind: EqFilterKind, sr: u32, q: f64, ctx: &mut Ctx) {
 // ---------------------------------------------------------------------------------------------
 // delay: integer delay line with feedback path and feedback effects
 
-const DELAY_FX: [&str; 3] = ["none", "VolumeControl(-3 dB)", "Filter(LowPass, 0.1*sample_rate)"];
+const DELAY_FX: [&str; 4] = ["none", "VolumeControl(-3 dB)", "Filter(LowPass, 0.1*sample_rate)", "Distortion(HardClip, +12 dB)"];
 fn ref_delay(x: &[S2], d: usize, fb: f32, mix: f32, fxk: usize) -> Vec<S2> {
 	let mut line = vec![[0.0f32; 2]; d];
 	let mut pos = 0;
@@ -568,6 +568,11 @@ fn ref_delay(x: &[S2], d: usize, fb: f32, mix: f32, fxk: usize) -> Vec<S2> {
 				match fxk {
 					1 => r *= amp(-3.0),
 					2 => r = lp.tick(ch, r).1,
+					// a nonlinear effect in the loop: the order "effects, then feedback gain" is observable
+					3 => {
+						let d = 10.0f32.powf(12.0 / 20.0);
+						r = (r * d).clamp(-1.0, 1.0) / d;
+					}
 					_ => {}
 				}
 				r *= fb;
@@ -595,6 +600,7 @@ fn run_delay(tier: Tier, sr: u32, ctx: &mut Ctx) {
 						let b = match fxk {
 							1 => b.with_feedback_effect(VolumeControlBuilder::new(Decibels(-3.0))),
 							2 => b.with_feedback_effect(FilterBuilder::new().cutoff(0.1 * sr as f64)),
+							3 => b.with_feedback_effect(DistortionBuilder::new().kind(DistortionKind::HardClip).drive(Decibels(12.0))),
 							_ => b,
 						};
 						if via() {
@@ -838,7 +844,49 @@ fn ref_comp(x: &[S2], sr: u32, c: &Comp) -> Vec<S2> {
 		})
 		.collect()
 }
+/// more than 60 dB of gain reduction, and a makeup gain below -60 dB: 10^(dB/20) has no floor
+fn run_comp_deep(sr: u32, ctx: &mut Ctx) {
+	for (threshold, ratio, makeup) in [(-70.0f64, 20.0f64, 0.0f32), (-70.0, 100.0, 40.0), (-20.0, 4.0, -70.0), (-80.0, 100.0, 0.0)] {
+		let c = Comp { threshold, ratio, attack: 0.002, release: 0.01, makeup, mix: 1.0 };
+		let cfg = format!("CompressorBuilder threshold={} dB ratio={} attack=0.002 s release=0.01 s makeup_gain={} dB mix=1 sample_rate={}{}", threshold, ratio, makeup, sr, via_tag());
+		let r = catch(|| {
+			let mk = || {
+				if via() {
+					return Fx::new_set(CompressorBuilder::new().threshold(-13.0).ratio(3.0).makeup_gain(Decibels(1.5)).mix(Mix(0.3)), sr, |h| {
+						h.set_threshold(threshold, NOW);
+						h.set_ratio(ratio, NOW);
+						h.set_attack_duration(Duration::from_millis(2), NOW);
+						h.set_release_duration(Duration::from_millis(10), NOW);
+						h.set_makeup_gain(Decibels(makeup), NOW);
+						h.set_mix(Mix(1.0), NOW);
+					});
+				}
+				Fx::new(CompressorBuilder::new().threshold(threshold).ratio(ratio).attack_duration(Duration::from_millis(2)).release_duration(Duration::from_millis(10)).makeup_gain(Decibels(makeup)).mix(Mix(1.0)), sr)
+			};
+			// full-scale square wave, the same magnitude on both channels
+			let n = (sr as usize / 10).max(2048);
+			let x: Vec<S2> = (0..n).map(|i| if (i / 24) % 2 == 0 { [1.0, -1.0] } else { [-1.0, 1.0] }).collect();
+			let y = mk().run(&x);
+			note(ctx, &x, &y);
+			let want = ref_comp(&x, sr, &c);
+			// relative to what the reference itself puts out at the end (the signal is 60..70 dB down)
+			let level = want[n - 1][0].abs() as f64;
+			if let Some(i) = (0..n).find(|&i| (0..2).any(|ch| !(((y[i][ch] - want[i][ch]).abs() as f64) <= 1e-5 + 0.01 * level.max(want[i][ch].abs() as f64)))) {
+				ctx.fail(
+					"compressor: output differs from the reference (dB-domain gain computer, 10^(dB/20) without a floor) :: more than 60 dB of gain change".to_string(),
+					format!("{}; full-scale square wave, frame {}: kira {:?}, reference {:?} (reference level at the end {:e})", cfg, i, y[i], want[i], level),
+				);
+			}
+		});
+		if let Err(p) = r {
+			ctx.fail(format!("panic: {} :: compressor, deep gain change", p), cfg);
+		}
+	}
+}
 fn run_comp(tier: Tier, sr: u32, threshold: f64, ctx: &mut Ctx) {
+	if threshold == THRESHOLDS[0] {
+		run_comp_deep(sr, ctx);
+	}
 	let ratios: &[f64] = tier.pick(&[0.5, 1.0, 2.0, 4.0, 100.0], &[0.5, 1.0, 1.5, 2.0, 4.0, 10.0, 100.0]);
 	let attacks: &[f64] = tier.pick(&[0.001, 0.01], &[0.001, 0.01, 0.05]);
 	let releases: &[f64] = tier.pick(&[0.01, 0.1], &[0.005, 0.01, 0.1]);
